@@ -21,9 +21,12 @@ Translation validation: the encoding is evaluated on a grid of concrete inputs a
 """
 import time
 
-import z3
-
-from vf import py2smt
+try:  # the replay runs in /venv/bin/python, which has no z3: only the encoding side needs it
+    import z3
+    from vf import py2smt
+except ImportError:  # pragma: no cover
+    z3 = None
+    py2smt = None
 from nrel.hive.resources import mock_lobster as ml
 from nrel.hive.model.vehicle.mechatronics.powercurve.tabular_powercurve import TabularPowercurve
 from nrel.hive.util.units import SECONDS_TO_HOURS
